@@ -232,7 +232,7 @@ class TrainerProp(core.Prop):
                             yield self._case(kind, script, horizon, pm, tkind)
             for _ in range(1500 if quick else 50000):
                 kind = rng.randrange(3)
-                script = mgr.gen_script(rng)
+                script = mgr.gen_script(rng, allow_big=True)
                 if kind == 2:
                     # the documented duty of a dynamic-order simulation: nominate a live agent
                     script["noms"] = []
@@ -245,7 +245,7 @@ class TrainerProp(core.Prop):
             # DebugTrainer.train: several episodes in a row with an explicit horizon
             for _ in range(150 if quick else 5000):
                 kind = rng.randrange(3)
-                script = mgr.gen_script(rng)
+                script = mgr.gen_script(rng, allow_big=True)
                 if kind == 2:
                     script["noms"] = []
                 pm = [rng.randrange(3) for _ in range(script["n"])]
